@@ -9,6 +9,13 @@ mod c04;
 use vhc::*;
 
 fn main() {
+    if std::env::var("VH_DEBUG").is_ok() {
+        // debugging aid: run a generator with the default panic hook (run_main silences it)
+        let ctx = Ctx { seed: 1, n: 1200, tier: Tier::Quick };
+        let n = match std::env::var("VH_DEBUG").unwrap().as_str() { "C02" => c02::cases(&ctx).len(), "C04" => c04::cases(&ctx).len(), _ => c01::cases(&ctx).len() };
+        println!("ok {n}");
+        return;
+    }
     run_main(
         |prop, ctx| match prop {
             "C03" => Some(c03::cases(ctx)),
